@@ -40,11 +40,11 @@ CHECKS = {
          "GOMAXPROCS(1), collector off inside a job (pool order then controlled through the verif drain/refill hooks, self-tested at job start); verdicts behavioural only; universes park one node per tree at a release/acquire threshold of each size class.",
          "Product closure of 2 (thorough 3) trees of mixed kinds over the real sync.Pool with enumerated hand-out order and 'Get answers New()' deviations; after every transition every tree is compared with its own ideal map and canonical structure (emptied tree == new tree); from every new state a deterministic fill/drain epilogue drives every tree through all four size classes twice so that latent damage in recycled nodes becomes a wrong result."),
  "C13": ("model_checking", "E1-HIST", E1_TECH, E1_NOTE,
-         "Closures on alpha[[]byte] and collation[[]byte] trees with every key argument passed in each buffer mode (exactly full, sub-slice of a live sentinel-framed array, one reused scanner buffer): after every call the whole backing array must equal its snapshot; buffers are then overwritten and the tree must still hold and return the inserted keys. Compound trees: the codec's output arena must stay untouched."),
+         "Closures on alpha[[]byte] and collation[[]byte] trees with every key argument passed in each of five buffer modes (exactly full; sub-slice of a live sentinel-framed or zero-filled array; one reused scanner buffer, sentinel- or zero-filled), keys of 15..1025 bytes included: as soon as a call has returned (also one returning a sequence) the whole backing array must equal its snapshot and is then overwritten; the tree and every sequence obtained earlier must still return the inserted keys. Compound trees: the codec's output arena must stay untouched."),
  "C14": ("model_checking", "E1-HIST", E1_TECH, E1_NOTE,
-         "For every sequence method in every reachable state: every stop position, callbacks after false counted, then two more full passes over the same sequence value must equal the first."),
+         "For every sequence method (incl. collation Range) in every reachable state: every stop position, callbacks after false counted, a complete and an abandoned pass nested inside an outer pass over the same value, then two more full passes (other read-only calls in between) must equal the first."),
  "C15": ("model_checking", "E1-HIST", E1_TECH, E1_NOTE,
-         "Complete raw structural dump (stale lanes, all inline bytes, size) compared before/after every group of queries, every Delete(absent) and every overwrite, in every reachable state."),
+         "Complete raw structural dump (stale lanes, all inline bytes, size) compared before/after every group of queries (incl. arguments that are sub-slices of keys the tree returned), every Delete(absent) and every overwrite, in every reachable state; sequences consumed with other read-only calls interleaved must yield the same; every transition is also executed on a history with read-only calls after every operation and must give a byte-identical tree and identical later results."),
  "C16": ("model_checking", "E4-SCHED", "stateless model checking: all goroutine schedules with a bounded number of preemptions at statement granularity on an overlay-instrumented build, plus a separate free-running -race pass",
          "Sequential consistency at statement granularity; sync.Pool modelled as a linearizable list inside the controlled scheduler; <= 2 preemptions (thorough: 3 for two goroutines, 3 goroutines with 2); the -race pass is sampling and reported separately.",
          "Every schedule within the preemption bound of 2-3 goroutines on private trees with pool traffic on every size class, and of concurrent read-only query mixes on one shared tree, must give every goroutine its sequential observations, leave every tree well-formed and the shared tree byte-identical; a free-running -race pass of the same bodies must be report-free."),
@@ -53,7 +53,7 @@ CHECKS = {
          "Every operation cycle (queries, overwrites, absent deletes, delete/insert churn incl. grow/shrink thresholds) of every reachable state is pumped 4*10^4 times and the live heap must not grow; 200 trees per state are churned and emptied and must retain only a small constant; a sliding window over an unbounded stream of fresh keys is pumped for every (key-group shape, deletion order) pair at bounded size."),
  "C18": ("model_checking", "E1-HIST", E1_TECH + "; the garbage collector is an enumerated environment event",
          "Collections at operation boundaries only (every position; thorough: every subset of positions for histories <= 8 operations); GODEBUG=clobberfree=1, GC percent 1, checkptr-instrumented build; collections inside operations are not explored by this check.",
-         "Closures for every tree kind x 7 value types with keys/values as fresh heap objects referenced only by the tree and a forced collection after every operation; deep equality of every stored key and value with the reference in every reachable state; checkptr faults and runtime fatal errors are violations."),
+         "Closures for every tree kind x 9 value types (incl. 1- and 3-byte values and 100/300-byte compressed paths) with keys/values as fresh heap objects referenced only by the tree and a forced collection after every operation; deep equality of every stored key and value with the reference in every reachable state; checkptr faults and runtime fatal errors are violations."),
  "C19": ("translation_validation", "E6-GEN", "complete enumeration of the five template instantiations, byte comparison with the repository generator's formatted output",
          "text/template and gofmt of the pinned toolchain are trusted.",
          "Runs the repository's own generator on the working tree's template (both initial states of the output file) and compares each of the five instantiations byte-for-byte."),
